@@ -525,7 +525,8 @@ pub fn packing_case(m: &mut Monitor, rng: &mut Rng) {
         if merges > 0 || accepted.len() >= 2 {
             crate::util::nontrivial_capped(m, &sig);
         }
-        if m.wants_sample() && merges > 0 {
+        if m.wants_sample() && merges > 0 && m.counter("sampled_merge_cases") < 3 {
+            m.count("sampled_merge_cases");
             m.sample(case(json!({"output": out})));
         }
     }
